@@ -81,6 +81,15 @@ def variants(name, h):
         out.append(("bare", "!"))
         return out
     add("default", lambda: h.using(**kw).hash(PW, **ctxkw))
+    # other spellings of the same hash (letter case) that the scheme itself verifies: they are its hashes too
+    if out:
+        v0 = out[0][1]
+        for tag, alt in (("spelling-lower", v0.lower()), ("spelling-upper", v0.upper()), ("spelling-swapcase", v0.swapcase())):
+            try:
+                if alt != v0 and alt not in [t for _, t in out] and h.verify(PW, alt, **ctxkw) is True:
+                    out.append((tag, alt))
+            except Exception:
+                pass
     add("second", lambda: h.using(**kw).hash(PW2, **ctxkw))
     if name != "ldap_plaintext":          # (documented: the empty string is not a valid ldap_plaintext value)
         add("empty-password", lambda: h.using(**kw).hash("", **ctxkw), pw="")
